@@ -70,7 +70,7 @@ impl VacantEntry {
     pub fn insert(self, v: HeaderValue) { unimplemented!() }
 }
 // add_duplicate_occurrence: appends dup_loc to an existing error or pushes a new one
-// (iter_mut().any(closure) is outside the dialect; contract assumed)
+// (the contract is the consequence, proved as lemma_assumed_contracts_follow, of the one the real body is verified against in unit c12_dupocc)
 #[verifier::external_body]
 pub fn add_duplicate_occurrence(errs: &mut Vec<HeaderError>, kind: HeaderErrorKind, orig_loc: Span, dup_loc: Span, Ghost(src): Ghost<&Src>)
     requires errs_ok(src, old(errs)@), span_ok(src, dup_loc),
